@@ -48,16 +48,14 @@ def preconditions_hold(c, M, op, lo, ro):
 
 
 def no_id_collision(c, outs):
+    """no output column is named '_id' (stated on the header term itself)"""
+    from .rowspec import header_term
     lo, ro = outs
-    lp, rp = c['l_out_prefix'], c['r_out_prefix']
-    idc = strconst('_id')
-    j = z3.Int('j!idc')
-    fs = [S.concat(lp, c['l_key_attr']) != idc, S.concat(rp, c['r_key_attr']) != idc]
-    if lo is not None:
-        fs.append(FA([j], z3.Implies(z3.And(j >= 0, j < ln(lo)), S.concat(lp, at(lo, j)) != idc), [at(lo, j)]))
-    if ro is not None:
-        fs.append(FA([j], z3.Implies(z3.And(j >= 0, j < ln(ro)), S.concat(rp, at(ro, j)) != idc), [at(ro, j)]))
-    return z3.And(*fs)
+    lkey, rkey = c['l_key_attr'], c['r_key_attr']
+    dl = None if lo is None else V(LV, S.dedup(lo.t, lkey))
+    dr = None if ro is None else V(LV, S.dedup(ro.t, rkey))
+    h = header_term(lkey, rkey, dl, dr, c['l_out_prefix'], c['r_out_prefix'], c['out_sim_score'])
+    return z3.Not(L_has(LV, h, strconst('_id')))
 
 
 def _mk(M, op, l_none, r_none, thr_ty=FLOAT):
@@ -74,8 +72,8 @@ def _mk(M, op, l_none, r_none, thr_ty=FLOAT):
         inline = (GH + 'convert_dataframe_to_array',)
         # the driver only relays the rows of its callees; it needs their headers, not their
         # pair-level postconditions (those are carried to the caller through the ghost results)
-        callee_views = {'py_stringsimjoin.join.set_sim_join.set_sim_join': ('header',),
-                        'py_stringsimjoin.utils.missing_value_handler.get_pairs_with_missing_value': ('header',)}
+        callee_views = {'py_stringsimjoin.join.set_sim_join.set_sim_join': ('header-term',),
+                        'py_stringsimjoin.utils.missing_value_handler.get_pairs_with_missing_value': ('header-term',)}
 
         @staticmethod
         def outs(c):
